@@ -8,6 +8,7 @@ pub mod c08;
 pub mod c09;
 pub mod c10;
 pub mod c11;
+pub mod c12;
 pub mod c13;
 pub mod c14;
 pub mod c15;
@@ -23,6 +24,7 @@ pub fn property(id: &str, tier: Tier) -> Option<PropertyDef> {
 		"C18" => Some(c18::def(tier)),
 		"C15" => Some(c15::def(tier)),
 		"C14" => Some(c14::def(tier)),
+		"C12" => Some(c12::def(tier)),
 		"C08" => Some(c08::def(tier)),
 		"C09" => Some(c09::def(tier)),
 		"C13" => Some(c13::def(tier)),
@@ -35,4 +37,4 @@ pub fn property(id: &str, tier: Tier) -> Option<PropertyDef> {
 	}
 }
 
-pub const ALL: &[&str] = &["C01", "C02", "C03", "C04", "C08", "C09", "C10", "C11", "C13", "C14", "C15", "C16", "C17", "C18"];
+pub const ALL: &[&str] = &["C01", "C02", "C03", "C04", "C08", "C09", "C10", "C11", "C12", "C13", "C14", "C15", "C16", "C17", "C18"];
